@@ -1,18 +1,40 @@
-"""C13 validators are never punished for doing what the chain asked (batch checkpoints part): SkywayBridge.tla (sigs family)."""
-from pipeline import Gen
+"""C13 validators are never punished for doing what the chain asked:
+   SkywayBridge.tla (bad-signature evidence vs issued checkpoints) + ConsensusQueue.tla (prune jailing)."""
+from pipeline import Gen, Multi
 from c01 import BridgeBase
+from cq import CQBase
 
 
-class C13(BridgeBase):
+class C13Bridge(BridgeBase):
     pid = "C13"
     prefixes = ("C13.",)
     mc = [("SkywayBridge_mc", "SkywayBridge_sigs", ("quick", "thorough"))]
-    gens = [Gen("SkywayBridgeGen", "SkywayBridgeGen_sigs_cover", "bfs", tiers=("quick", "thorough"), timeout=900),
-            Gen("SkywayBridgeGen", "SkywayBridgeGen_sigs_sim", "simulate", num=300, depth=14, tiers=("quick",)),
-            Gen("SkywayBridgeGen", "SkywayBridgeGen_sigs_sim", "simulate", num=3000, depth=14, tiers=("thorough",))]
+    gens = [Gen("SkywayBridgeGen", "SkywayBridgeGen_sigs_cover", "bfs", tiers=("quick",), timeout=900, cap=2500),
+            Gen("SkywayBridgeGen", "SkywayBridgeGen_sigs_sim", "simulate", num=300, depth=14, tiers=("quick",), cap=1500),
+            Gen("SkywayBridgeGen", "SkywayBridgeGen_sigs_cover", "bfs", tiers=("thorough",), timeout=900, cap=20000),
+            Gen("SkywayBridgeGen", "SkywayBridgeGen_sigs_sim", "simulate", num=3000, depth=14, tiers=("thorough",), cap=15000)]
 
     def nontrivial(self, evs):
         return any(e["act"] == "Evidence" for e in evs) and any(e["act"] == "EndBlock" for e in evs)
+
+
+class C13Queue(CQBase):
+    pid = "C13"
+    prefixes = ("C13.",)
+    mc = [("ConsensusQueue_mc", "ConsensusQueue_ev", ("quick", "thorough"))]
+    gens = [Gen("ConsensusQueueGen", "ConsensusQueueGen_prune_cover", "bfs", tiers=("quick",), timeout=900, cap=1500),
+            Gen("ConsensusQueueGen", "ConsensusQueueGen_sim", "simulate", num=100, depth=18, tiers=("quick",), cap=500),
+            Gen("ConsensusQueueGen", "ConsensusQueueGen_prune_cover", "bfs", tiers=("thorough",), timeout=900, cap=20000),
+            Gen("ConsensusQueueGen", "ConsensusQueueGen_sim", "simulate", num=1000, depth=18, tiers=("thorough",), cap=6000)]
+
+    def nontrivial(self, evs):
+        return any(e["act"] == "EndBlock" and len(e["obs"]["jailed"]) > 0 for e in evs) or \
+            any(e["act"] == "Evidence" and e.get("res") == "ok" for e in evs)
+
+
+class C13(Multi):
+    pid = "C13"
+    parts = [C13Bridge(), C13Queue()]
 
 
 CHECK = C13()
